@@ -2,4 +2,5 @@
 (* Known-finding signatures for the lexer (see KnownFindings.tla for the convention). *)
 EXTENDS Integers, Sequences
 KF_C13(o, why) == "NEW"
+KF_C14(o, r, why) == "NEW"
 ==============================================================================
